@@ -209,21 +209,22 @@ theorem split_first (c : Char) : ∀ (a b x y : List Char), c ∉ a → c ∉ b 
 /-- the name without directory -/
 def baseNameL (pre suf : List Char) (z : Bool) (key : List Char) : List Char :=
   let name := pre ++ key ++ suf
-  if z && !endsWithL name gzSuffix then name ++ gzSuffix else name
+  if z && !endsWithL (patternL pre suf) gzSuffix then name ++ gzSuffix else name
 
 theorem fileNameL_eq (pre suf : List Char) (z : Bool) (key dir : List Char) :
     fileNameL pre suf z key dir = if dir ≠ [] then dir ++ '/' :: baseNameL pre suf z key else baseNameL pre suf z key := rfl
 
-theorem baseNameL_shape (pre suf : List Char) (z : Bool) (hz : z = false ∨ 3 ≤ suf.length) (key : List Char) :
-    baseNameL pre suf z key = pre ++ key ++ (suf ++ if z && !endsWithL suf gzSuffix then gzSuffix else []) := by
+/-- the extension does not depend on the key (it did, before the repair, unless `hz` of `gz_decision`) -/
+theorem baseNameL_shape (pre suf : List Char) (z : Bool) (key : List Char) :
+    baseNameL pre suf z key =
+      pre ++ key ++ (suf ++ if z && !endsWithL (patternL pre suf) gzSuffix then gzSuffix else []) := by
   unfold baseNameL
   simp only
-  rw [gz_decision pre suf z hz key]
   split <;> simp
 
-theorem baseNameL_injective (pre suf : List Char) (z : Bool) (hz : z = false ∨ 3 ≤ suf.length) (k1 k2 : List Char)
+theorem baseNameL_injective (pre suf : List Char) (z : Bool) (k1 k2 : List Char)
     (h : baseNameL pre suf z k1 = baseNameL pre suf z k2) : k1 = k2 := by
-  rw [baseNameL_shape pre suf z hz, baseNameL_shape pre suf z hz, List.append_assoc, List.append_assoc] at h
+  rw [baseNameL_shape pre suf z, baseNameL_shape pre suf z, List.append_assoc, List.append_assoc] at h
   exact List.append_cancel_right (List.append_cancel_left h)
 
 theorem baseNameL_noslash (pre suf : List Char) (z : Bool) (key : List Char)
@@ -233,9 +234,8 @@ theorem baseNameL_noslash (pre suf : List Char) (z : Bool) (key : List Char)
   split <;> simp [hp, hs, hk, gzSuffix]
 
 /-- **the file is determined by the class, and only by it**: two classes (key, directory) get the
-same file iff they are equal — for plain names (no `/`), when the `.gz` decision does not depend on
-the key (`gz_decision`) -/
-theorem fileNameL_injective (pre suf : List Char) (z : Bool) (hz : z = false ∨ 3 ≤ suf.length)
+same file iff they are equal — for plain names (no `/`); compressed or not, whatever the pattern -/
+theorem fileNameL_injective (pre suf : List Char) (z : Bool)
     (k1 d1 k2 d2 : List Char) (hp : '/' ∉ pre) (hs : '/' ∉ suf) (hk1 : '/' ∉ k1) (hk2 : '/' ∉ k2)
     (hd1 : '/' ∉ d1) (hd2 : '/' ∉ d2)
     (h : fileNameL pre suf z k1 d1 = fileNameL pre suf z k2 d2) : k1 = k2 ∧ d1 = d2 := by
@@ -244,19 +244,27 @@ theorem fileNameL_injective (pre suf : List Char) (z : Bool) (hz : z = false ∨
   have n2 := baseNameL_noslash pre suf z k2 hp hs hk2
   by_cases e1 : d1 = [] <;> by_cases e2 : d2 = []
   · simp only [e1, e2, ne_eq, not_true_eq_false, if_false] at h
-    exact ⟨baseNameL_injective pre suf z hz k1 k2 h, by rw [e1, e2]⟩
+    exact ⟨baseNameL_injective pre suf z k1 k2 h, by rw [e1, e2]⟩
   · simp only [e1, e2, ne_eq, not_true_eq_false, if_false, not_false_eq_true, if_true] at h
     exact absurd (h ▸ (List.mem_append_right d2 List.mem_cons_self)) n1
   · simp only [e1, e2, ne_eq, not_true_eq_false, if_false, not_false_eq_true, if_true] at h
     exact absurd (h.symm ▸ (List.mem_append_right d1 List.mem_cons_self)) n2
   · simp only [e1, e2, ne_eq, not_false_eq_true, if_true] at h
     obtain ⟨ed, en⟩ := split_first '/' d1 d2 _ _ hd1 hd2 h
-    exact ⟨baseNameL_injective pre suf z hz k1 k2 en, ed⟩
+    exact ⟨baseNameL_injective pre suf z k1 k2 en, ed⟩
 
-/-- the side condition of `fileNameL_injective` is needed: with compressed output and a pattern that
-does not end with `.gz`, the classes `x` and `x.gz` share the file `ax.gz` -/
-theorem fileNameL_gz_collision :
-    fileNameL ['a'] [] true ['x'] [] = fileNameL ['a'] [] true ['x', '.', 'g', 'z'] [] := by decide
+/-- the counterexample of the unrepaired code (`-Z -p a%s`, classes `x` and `x.gz` sharing `ax.gz`) is
+gone: the two classes have the files `ax.gz` and `ax.gz.gz` -/
+theorem fileNameL_no_gz_collision :
+    fileNameL ['a'] [] true ['x'] [] = ['a', 'x', '.', 'g', 'z'] ∧
+    fileNameL ['a'] [] true ['x', '.', 'g', 'z'] [] = ['a', 'x', '.', 'g', 'z', '.', 'g', 'z'] := by decide
+
+/-- a pattern ending with `.gz` is left alone, any other gets `.gz` appended when the output is compressed -/
+theorem compressed_extension (pre suf key : List Char) :
+    (endsWithL (patternL pre suf) gzSuffix = true → fileNameL pre suf true key [] = pre ++ key ++ suf) ∧
+    (endsWithL (patternL pre suf) gzSuffix = false → fileNameL pre suf true key [] = pre ++ key ++ suf ++ gzSuffix) ∧
+    fileNameL pre suf false key [] = pre ++ key ++ suf := by
+  refine ⟨fun h => ?_, fun h => ?_, ?_⟩ <;> simp [fileNameL, *]
 
 /-! ## the files computed by `distributeFiles` -/
 
@@ -315,5 +323,106 @@ theorem distributeFiles_content (o : DistOpts) (c : Classifier) (recs : List Rec
   unfold distributeFiles
   rw [foldl_addToFile (fun ri => fileName o (classOf c ri.2 ri.1)) g]
   simp
+
+/-! ## `--append` -/
+
+theorem addToFile_nonempty (f id : String) : ∀ (l : List (String × List String)),
+    (∀ e ∈ l, e.2 ≠ []) → ∀ e ∈ addToFile f id l, e.2 ≠ [] := by
+  intro l
+  induction l with
+  | nil => intro _ e he; simp [addToFile] at he; subst he; simp
+  | cons x t ih =>
+    obtain ⟨g, ids⟩ := x
+    intro h e he
+    unfold addToFile at he
+    split at he
+    · rcases List.mem_cons.mp he with rfl | h'
+      · simp
+      · exact h e (List.mem_cons_of_mem _ h')
+    · rcases List.mem_cons.mp he with rfl | h'
+      · exact h _ (by simp)
+      · exact ih (fun e' he' => h e' (List.mem_cons_of_mem _ he')) e h'
+
+theorem mem_of_lookup_some {β : Type} (l : List (String × β)) (g : String) (v : β) (h : l.lookup g = some v) :
+    (g, v) ∈ l := by
+  induction l with
+  | nil => simp at h
+  | cons x t ih =>
+    obtain ⟨k, w⟩ := x
+    by_cases e : g = k
+    · subst e; simp [List.lookup] at h; subst h; simp
+    · have hb : (g == k) = false := by simp [e]
+      simp only [List.lookup, hb] at h
+      exact List.mem_cons_of_mem _ (ih h)
+
+/-- a file exists only when a record was routed to it -/
+theorem distributeFiles_nonempty (o : DistOpts) (c : Classifier) (recs : List Rec) (g : String) (ids : List String)
+    (h : (distributeFiles o c recs).lookup g = some ids) : ids ≠ [] := by
+  have inv : ∀ (l : List (Rec × Nat)) (acc : List (String × List String)), (∀ e ∈ acc, e.2 ≠ []) →
+      ∀ e ∈ l.foldl (fun acc (ri : Rec × Nat) => addToFile (fileName o (classOf c ri.2 ri.1)) ri.1.id acc) acc, e.2 ≠ [] := by
+    intro l
+    induction l with
+    | nil => intro acc h; exact h
+    | cons x t ih => intro acc h; exact ih _ (addToFile_nonempty _ _ acc h)
+  exact inv recs.zipIdx [] (by simp) (g, ids) (mem_of_lookup_some _ g ids h)
+
+theorem lookup_map_value {β γ : Type} (h : String → β → γ) (l : List (String × β)) (g : String) :
+    (l.map fun f => (f.1, h f.1 f.2)).lookup g = (l.lookup g).map (h g) := by
+  induction l with
+  | nil => rfl
+  | cons x t ih =>
+    obtain ⟨k, v⟩ := x
+    by_cases e : g = k
+    · subst e; simp [List.lookup]
+    · have hb : (g == k) = false := by simp [e]
+      simp [List.lookup, hb, ih]
+
+theorem lookup_filter_name {β : Type} (p : String → Bool) (l : List (String × β)) (g : String) :
+    (l.filter fun kv => p kv.1).lookup g = if p g then l.lookup g else none := by
+  induction l with
+  | nil => simp
+  | cons x t ih =>
+    obtain ⟨kx, vx⟩ := x
+    by_cases hk : g = kx
+    · subst hk
+      cases hp : p g <;> simp [List.filter, hp, List.lookup, ih]
+    · have hb : (g == kx) = false := by simp [hk]
+      cases hp : p kx <;> simp [List.filter, hp, List.lookup, hb, ih]
+
+theorem lookup_none_iff_not_name {β : Type} (l : List (String × β)) (g : String) :
+    l.lookup g = none ↔ (l.map (·.1)).contains g = false := by
+  induction l with
+  | nil => simp
+  | cons x t ih =>
+    obtain ⟨k, v⟩ := x
+    by_cases e : g = k
+    · subst e; simp [List.lookup]
+    · have hb : (g == k) = false := by simp [e]
+      have hb' : (k == g) = false := by simp [Ne.symm e]
+      simp only [List.lookup, hb, ih, List.map_cons, List.contains_cons, hb', Bool.false_or]
+
+/-- the directory after a run: a file the run writes holds its old content (with `--append`; nothing
+without) followed by the records routed to it; a file the run does not write is as before -/
+theorem distributeFilesOn_content (o : DistOpts) (c : Classifier) (existing : List (String × List String))
+    (recs : List Rec) (g : String) :
+    (distributeFilesOn o c existing recs).lookup g =
+      match (distributeFiles o c recs).lookup g with
+      | some ids => some ((if o.append then (existing.lookup g).getD [] else []) ++ ids)
+      | none => existing.lookup g := by
+  unfold distributeFilesOn
+  simp only
+  rw [List.lookup_append]
+  have h1 := lookup_map_value (fun n ids => (if o.append then (existing.lookup n).getD [] else []) ++ ids)
+    (distributeFiles o c recs) g
+  have h1' : (List.map (writtenContent o.append existing) (distributeFiles o c recs)).lookup g =
+      ((distributeFiles o c recs).lookup g).map
+        (fun ids => (if o.append then (existing.lookup g).getD [] else []) ++ ids) := h1
+  rw [h1']
+  rw [lookup_filter_name (fun n => !((distributeFiles o c recs).map (·.1)).contains n) existing g]
+  cases hl : (distributeFiles o c recs).lookup g with
+  | some ids => simp
+  | none =>
+    have := (lookup_none_iff_not_name _ g).mp hl
+    simp only [this, Option.map_none, Option.none_or, Bool.not_false, ↓reduceIte]
 
 end ObiVerif.Distribute
